@@ -187,3 +187,187 @@ def discovery_flag_consulted(ctx: Context, rule_id: str) -> None:
         )
     else:
         rule.ok(key, f"{len(readers)} reader node(s) cut every path to {len(exits)} exit(s)")
+
+
+# --------------------------------------------------------------------------------------
+# plugin callbacks are contained (R07a / R15b) and only the manager calls them (R07b)
+# --------------------------------------------------------------------------------------
+
+RULE_PLUGIN = "pymarkdown.plugin_manager.rule_plugin.RulePlugin"
+CALLBACKS = ("starting_new_file", "next_token", "next_line", "completed_file", "initialize_from_config", "query_config")
+
+
+def plugin_call_sites(prog: Program):
+    """Call sites in the repo whose receiver is a RulePlugin instance (plugin code runs there)."""
+    base = prog.cls(RULE_PLUGIN)
+    overridable = set()
+    for sub in base.all_subclasses():
+        overridable.update(name for name in sub.methods if not name.startswith("_"))
+    overridable.update(name for name, m in base.methods.items() if not name.startswith("_"))
+    out = []
+    for func in prog.iter_functions():
+        if func.cls is not None and (func.cls == base or base in func.cls.mro):
+            continue  # a plugin calling its own methods
+        for site in prog.sites_in(func):
+            node = site.node
+            if not isinstance(node.func, ast.Attribute):
+                continue
+            recv = prog.infer(func, node.func.value)
+            if recv and recv[0] == "cls" and (recv[1] == base or base in recv[1].mro) and node.func.attr in overridable:
+                out.append((func, site))
+    return out
+
+
+def callbacks_contained(ctx: Context, rule_id: str) -> None:
+    from sa.util import catching_handler, handler_always_raises, is_catch_all
+
+    prog = ctx.prog
+    rule = ctx.rule(rule_id, "every call into plugin code sits in try/except Exception -> raise BadPluginError", 10)
+    sites = plugin_call_sites(prog)
+    extra = []
+    loader = prog.cls(PM)
+    for func in loader.methods.values():
+        for site in prog.sites_in(func):
+            if site.external == "builtins.__import__" or (site.wild and isinstance(site.node.func, ast.Name)):
+                extra.append((func, site))
+    for func, site in sites + extra:
+        key = func_key(func, site.node)
+        if func.rel.startswith("pymarkdown/plugins/") or func.rel.startswith("pymarkdown/extensions/"):
+            continue
+        handler = catching_handler(func.node, site.node, is_catch_all)
+        if handler is None:
+            rule.fail(key, site.where, "call into plugin code is not inside a try with an 'except Exception' handler: a plugin exception escapes as a raw internal error")
+            continue
+        ok, why = handler_always_raises(handler, {"BadPluginError"})
+        if not ok:
+            rule.fail(key, site.where, f"the handler guarding this plugin call does not always raise BadPluginError: {why}")
+        else:
+            rule.ok(key, "contained")
+
+
+def callbacks_only_from_manager(ctx: Context, rule_id: str) -> None:
+    prog = ctx.prog
+    rule = ctx.rule(rule_id, "only PluginManager invokes RulePlugin life-cycle callbacks", 6)
+    for func, site in plugin_call_sites(prog):
+        name = site.node.func.attr  # type: ignore[attr-defined]
+        if name not in CALLBACKS:
+            continue
+        key = func_key(func, site.node)
+        if func.cls is not None and func.cls.qualname == PM:
+            rule.ok(key, "in PluginManager")
+        else:
+            rule.fail(key, site.where, f"{func.short} invokes the plugin callback '{name}' outside PluginManager: the call bypasses containment, dispatch filtering and the life-cycle order")
+
+
+# --------------------------------------------------------------------------------------
+# R10d / R15h: the "file was changed" flag survives a later fault
+# --------------------------------------------------------------------------------------
+
+FAULT_CLASSES = {"BadPluginError", "BadPluginFixError", "BadTokenizationError"}
+
+
+def write_back_sinks(prog: Program):
+    """(function, call site) pairs that write onto the user's file in the fix path."""
+    from sa.rules.c15 import WRITE_SINKS, user_file_params
+
+    tainted = user_file_params(prog)
+    out = []
+    for qual, params in tainted.items():
+        func = prog.functions[qual]
+        for site in prog.sites_in(func):
+            node = site.node
+            if (site.external or "") in WRITE_SINKS and len(node.args) >= 2 and isinstance(node.args[1], ast.Name) and node.args[1].id in params:
+                out.append((func, site))
+    return out
+
+
+def fixed_flag_survives_faults(ctx: Context, rule_id: str, ra) -> None:
+    from sa.util import enclosing_tries
+
+    prog = ctx.prog
+    rule = ctx.rule(rule_id, "a plugin/parser fault after a write-back cannot lose the 'file was changed' flag", 2)
+    sinks = write_back_sinks(prog)
+    if not sinks:
+        raise AnalysisError("no write-back sink found")
+    sink_funcs = {func.qualname for func, _ in sinks}
+    per_file = prog.method(FSH, "__fix_specific_file")
+    chain = prog.reachable([per_file])
+    # functions of the chain that may (transitively) write
+    may_write: Set[str] = set(sink_funcs)
+    changed = True
+    while changed:
+        changed = False
+        for qual in chain:
+            if qual in may_write:
+                continue
+            func = prog.functions[qual]
+            if any(t.qualname in may_write for s in prog.sites_in(func) if not s.wild for t in s.targets):
+                may_write.add(qual)
+                changed = True
+    faulty: List[Tuple[FuncInfo, List[str]]] = []
+    for qual in sorted(may_write):
+        if qual not in chain or qual == per_file.qualname:
+            continue
+        func = prog.functions[qual]
+        cfg = CFG(func.node, raising=ra.raising_predicate(func))
+        write_nodes: Set[int] = set()
+        for node in cfg.nodes:
+            if node.ast_node is None or node.kind not in ("stmt", "cond", "with"):
+                continue
+            for call in [c for c in ast.walk(node.ast_node) if isinstance(c, ast.Call)]:
+                site = site_for(prog, func, call)
+                if site is None:
+                    continue
+                if any(site is s for f, s in sinks if f == func) or any(t.qualname in may_write for t in site.targets if not site.wild):
+                    write_nodes.add(node.nid)
+        found = None
+        for wnode in sorted(write_nodes):
+            starts = [dst for dst, label in cfg.succ[wnode] if label != "exc"]
+            parent = cfg.reachable_from(starts, labels={"next", "true", "false"})
+            for nid in parent:
+                node = cfg.nodes[nid]
+                if node.ast_node is None:
+                    continue
+                classes = {c.split("@")[0] for c in ra.may_raise_at(func, node.ast_node)} if node.kind in ("stmt", "cond", "with") else set()
+                if not classes & FAULT_CLASSES:
+                    continue
+                # does that exception leave the function?
+                exc_parent = cfg.reachable_from([dst for dst, label in cfg.succ[nid] if label == "exc"])
+                if cfg.raise_exit in exc_parent:
+                    found = (wnode, nid, sorted(classes & FAULT_CLASSES))
+                    break
+            if found:
+                break
+        key = f"{func.short}: fault after write-back"
+        if found:
+            wnode, nid, classes = found
+            faulty.append((func, [f"write-back possible at {cfg.describe(wnode)}", f"then {cfg.describe(nid)} may raise {classes} and leave {func.short}"]))
+        else:
+            rule.ok(key, "no plugin/parser fault can follow a write-back inside this function")
+    # the per-file function: does any handler recompute the flag?
+    rets = returns_of(per_file)
+    flag_names: Set[str] = set()
+    for ret in rets:
+        if isinstance(ret, ast.Tuple) and ret.elts and isinstance(ret.elts[0], ast.Name):
+            flag_names.add(ret.elts[0].id)
+        elif isinstance(ret, ast.Name):
+            flag_names.add(ret.id)
+    handlers = [n for n in walk_local(per_file.node) if isinstance(n, ast.ExceptHandler)]
+    recomputes = False
+    for handler in handlers:
+        for stmt in handler.body:
+            for sub in ast.walk(stmt):
+                if isinstance(sub, ast.Assign) and any(isinstance(t, ast.Name) and t.id in flag_names for t in sub.targets):
+                    recomputes = True
+    for func, steps in faulty:
+        key = f"{func.short}: fault after write-back"
+        if recomputes:
+            rule.ok(key, "the per-file handler recomputes the flag")
+        else:
+            rule.fail(
+                key, where(func),
+                f"{func.short} can write the user's file and then fail with a plugin/parser error; the exception carries no flag and "
+                f"{per_file.short} returns its initial 'not fixed' value: the file is changed but not announced as 'Fixed:' and the run "
+                "cannot end as fixed",
+                steps,
+            )
